@@ -73,7 +73,9 @@ def codingMatrix (k total : Nat) : Option Mat :=
   | none => none
   | some inv => some (mmul v inv total k k)
 
-/-- `ReedSolomon::reconstruct(&mut shards)` restricted to what flute reads afterwards (the data shards) -/
+/-- `ReedSolomon::reconstruct(&mut shards)`: missing data shards from any k present shards, then the missing PARITY shards recomputed
+    from the k data shards with the rows of the coding matrix (as the crate does; an earlier version zero-filled them - flute never
+    reads them - which made the RS contract `CodecOK.rs` false for this codec: reviewer batch 3) -/
 def reconstruct (k p : Nat) (shards : List (Option (List Nat))) : Option (List (Option (List Nat))) :=
   let total := k + p
   if shards.length ≠ total then none else
@@ -95,14 +97,21 @@ def reconstruct (k p : Nat) (shards : List (Option (List Nat))) : Option (List (
       | none => none
       | some dec =>
         let subShards : Array (Array Nat) := (idx.map fun (_, b) => b.toArray).toArray
+        -- the k data shards (present or reconstructed)
+        let data : Array (Array Nat) := ((shards.take k).zipIdx.map fun (s, i) =>
+          match s with
+          | some b => b.toArray
+          | none =>
+            ((List.range len).map fun byte =>
+              (List.range k).foldl (fun acc j => acc ^^^ gmul (dec.get i j) ((subShards[j]!)[byte]!)) 0).toArray).toArray
         let out : List (Option (List Nat)) := (shards.zipIdx).map fun (s, i) =>
           match s with
           | some b => some b
           | none =>
-            if i < k then
+            if i < k then some (data[i]!).toList
+            else
               some ((List.range len).map fun byte =>
-                (List.range k).foldl (fun acc j => acc ^^^ gmul (dec.get i j) ((subShards[j]!)[byte]!)) 0)
-            else some (List.replicate len 0)   -- parity shards are recomputed by the crate; flute never reads them
+                (List.range k).foldl (fun acc j => acc ^^^ gmul (cm.get i j) ((data[j]!)[byte]!)) 0)
         some out
 
 end Flute.Drv.Rs
